@@ -248,6 +248,8 @@ def check_agreement(rep, rid, mod, gram: Grammar, clsname, consumed_as_tree=(), 
     for name, fdef in methods.items():
         if name in helper_methods:
             continue
+        if name.startswith('_') and name not in cbs:
+            continue        # a private helper: lark looks callbacks up by rule name, and rules whose name starts with `_` are inlined and never transformed
         if name not in cbs:
             rep.ob(rid, f'{clsname}.{name}: has a rule', False)
             rep.violate(rid, mod, fdef, f'def {name}(...)', f'{clsname}.{name} matches no rule or alias of the grammar (dead callback: the rule it was written for is never transformed)', node=fdef)
